@@ -8,6 +8,9 @@ var Monitors = map[string]func(*core.Run){
 	"C02": RunC02,
 	"C03": RunC03,
 	"C04": RunC04,
+	"C10": RunC10,
+	"C16": RunC16,
+	"C20": RunC20,
 	"C11": RunC11,
 	"C12": RunC12,
 	"C13": RunC13,
